@@ -2311,9 +2311,9 @@ class Transport(threading.Thread, ClosingContextManager):
                 self.saved_exception = e
             except socket.error as e:
                 if type(e.args) is tuple:
-                    if e.args:
-                        emsg = "{} ({:d})".format(e.args[1], e.args[0])
-                    else:  # empty tuple, e.g. socket.timeout
+                    if len(e.args) >= 2:
+                        emsg = "{} ({})".format(e.args[1], e.args[0])
+                    else:  # no errno, e.g. socket.timeout, OSError("msg")
                         emsg = str(e) or repr(e)
                 else:
                     emsg = e.args
